@@ -156,6 +156,29 @@ def engine_obligations(ctx, repo, r_fifo, r_throttle, r_first, r_iso):
     except PyRaise as ex:
         calls = [("raises", ex.what)]
     ctx.ob(r_first, f"{dr.qual}::nobody-accepts", calls == [("A", "can_handle"), ("B", "can_handle")], f"{dr.qual} with no accepting handler makes the calls {calls}", dr.loc)
+    # ---- one datagram per engine pass: the thread loop runs the handler clean-up after _process_received_data, and
+    # finished handlers rely on being removed before the next datagram is dispatched (the status-block assembler keeps
+    # its completed segment list until then) - so one call must dispatch at most one datagram
+    e = Engine(repo)
+    inbox = [(b"<PACKT>one</PACKT>", ("10.0.0.9", 10022)), (b"<PACKT>two</PACKT>", ("10.0.0.9", 10022))]
+
+    def recvfrom(a, k):
+        if inbox:
+            return inbox.pop(0)
+        raise PyRaise("socket.timeout: timed out")
+    e.os_sock.attrs["recvfrom"] = Native(recvfrom, "recvfrom")
+    e.obj.attrs["_exit_event"] = Obj(None, {"is_set": Native(lambda a, k: False), "wait": Native(lambda a, k: None), "set": Native(lambda a, k: None)}, name="event")
+    H = e.handler("H", can=True)
+    e.call("add_receive_handler", H)
+    prd = repo.method(SOCK, "_process_received_data")
+    try:
+        e.call("_process_received_data")
+        n_handled = sum(1 for c in e.calls if c == ("H", "handle"))
+    except PyRaise as ex:
+        n_handled = f"raises {ex.what}"
+    ctx.ob(r_first, f"{prd.qual}::one-datagram-per-pass", n_handled == 1,
+           f"{prd.qual} with two datagrams waiting dispatches {n_handled} of them in one call: the handler clean-up of the engine loop no longer runs between two datagrams, "
+           f"so a handler that has just completed (e.g. the status-block assembler after its final segment) receives the next datagram - a duplicated segment chain is appended and installed", prd.loc)
     # ---- isolation
     e = Engine(repo)
     bad, good = e.handler("bad", raises=True), e.handler("good")
